@@ -71,14 +71,15 @@ def run(report, tier, seed):
     from engine.checks import py_common
     py_common.demote_unconfirmed_shape_checks(
         report, lambda ob: 'syntactic' in (ob.by or []) or
-        ':maps:' in ob.oid,
+        ':maps:' in ob.oid or ob.oid.endswith(':offset-initialised'),
         'the statement that fills vmap / mmap is not of the form the '
         'contract reads')
     report.floor = 20
     report.not_decided += [
         'the epigraph expansion of piecewise-linear objectives and '
-        'constraints (constraint._aslinearineq) and the multiplier map of '
-        'piecewise-linear constraints (mmap of pwl_ineqs)',
+        'constraints (constraint._aslinearineq); that the pieces summed '
+        'into mmap of a piecewise-linear constraint are the right ones '
+        '(pwl_ineqs is what _aslinearineq returned)',
         'optimality / duality of the values returned (the LP solve is '
         'numerical); agreement of dense / sparse / GLPK',
         'the objective vector c and the early "already in matrix form" '
